@@ -51,6 +51,9 @@ package postgres
 //@   modifies pdb.tx, pdb.multi, count(txOpen), count(fault), txLive[ALL]
 //@   ensures[C13] @ok pgOk(pdb) && settled(pdb)
 //@   ensures[C13] @started result == nil ==> pdb.multi && pdb.tx != nil
+// a Start that fails leaves the store as it was: later single operations work normally
+//@   ensures[C13] @failed result != nil ==> pdb.multi == old(pdb.multi)
+//@   ensures[C13] @failedtx result != nil ==> (pdb.tx == nil) == old(pdb.tx == nil)
 //@   ensures[C13] @reports count(fault) > old(count(fault)) ==> result != nil
 
 //@ func (*pgDb).Stop
@@ -75,8 +78,10 @@ package postgres
 
 // Put / Get: whatever the driver does, the store ends the operation settled:
 // a transaction begun for a single operation is ended exactly once.
+// (C10: apart from the transaction handle they keep no state of their own - no cache of
+// earlier results between the caller and the table: the frame below)
 //@ func (*pgDb).Put
-//@   serves C13
+//@   serves C13, C10
 //@   safety[C13]
 //@   requires pgOk(pdb) && settled(pdb) && ctx != nil
 //@   premise !sameBacking(key, pdb.DbBase.baseDb.sid)
@@ -87,7 +92,7 @@ package postgres
 //@   ensures[C13] @multikept old(pdb.multi) && old(pdb.tx) != nil && result == nil ==> pdb.tx == old(pdb.tx) && count(txOpen) == 1
 
 //@ func (*pgDb).Get
-//@   serves C13
+//@   serves C13, C10
 //@   safety[C13]
 //@   requires pgOk(pdb) && settled(pdb) && ctx != nil
 //@   premise !sameBacking(key, pdb.DbBase.baseDb.sid)
